@@ -239,6 +239,11 @@ func run() int {
 		fmt.Fprintf(os.Stderr, "loaded + SSA in %.1fs\n", loadT.Seconds())
 	}
 
+	if old, _ := filepath.Glob(filepath.Join(*verifDir, "replays", *prop, "*-"+*tier+"-*.json")); len(old) > 0 && *only == "" {
+		for _, f := range old {
+			os.Remove(f)
+		}
+	}
 	known := loadKnown()
 	var allVio []*interp.Violation
 	var inconclusive []string
